@@ -2,7 +2,7 @@
    reader + buffer + emitter composition against the contract, the phantom-event refutation. *)
 Require Import WD.Base.Prelude WD.Base.BStr WD.Model.SubEvents WD.Model.Emitter WD.Model.Fs WD.Model.Reader
                WD.Model.DelayQueue WD.Model.Grouping WD.Model.Pipeline WD.Model.Contract.
-Require Import WD.Proofs.SubEventsProofs.
+Require Import WD.Proofs.SubEventsProofs WD.Proofs.ReaderFixProofs.
 
 (* ================================================================== 1. shape lemmas about [emit] *)
 Definition cls_isdir (c : evclass) : bool := snd (what_of c).
@@ -384,39 +384,63 @@ Qed.
 Section ReadOne.
   Variable C : cfg.
 
+  (* The reader lemmas are stated for a state in which no directory IN_MOVED_FROM is pending ([pend r = None]: every
+     quiescent state except right after a directory has been moved out); [read_one_to] also accepts the pending
+     first half of its own rename. *)
   Lemma read_one_plain t r k acc e wdp :
+    pend r = None ->
     alookup N.eqb (k_wd e) (pfw r) = Some wdp ->
     is_moved_from (k_mask e) = false -> is_moved_to (k_mask e) = false ->
     Emitter.is_ignored (k_mask e) = false ->
     is_directory (k_mask e) && is_create (k_mask e) = false ->
     read_one C t (r, k, acc) e = Done (r, k, acc ++ [mkraw e (rpath wdp (k_name e))]).
   Proof.
-    intros H1 H2 H3 H4 H5. unfold read_one. rewrite H1, H2, H3, H4. cbn [r_path].
+    intros H0 H1 H2 H3 H4 H5. rewrite read_one_body_eq by exact H0.
+    unfold read_one_body. rewrite H1, H2, H3, H4. cbn [r_path].
     rewrite <- andb_assoc, H5, andb_false_r. reflexivity.
   Qed.
 
   Lemma read_one_from t r k acc e wdp :
+    pend r = None ->
     alookup N.eqb (k_wd e) (pfw r) = Some wdp ->
     is_moved_from (k_mask e) = true -> Emitter.is_ignored (k_mask e) = false ->
     is_directory (k_mask e) && is_create (k_mask e) = false ->
     read_one C t (r, k, acc) e =
     Done ({| wfp := wfp r; pfw := pfw r;
-             mvf := aset N.eqb (k_cookie e) (rpath wdp (k_name e)) (mvf r); calls := calls r |},
+             mvf := aset N.eqb (k_cookie e) (rpath wdp (k_name e)) (mvf r); calls := calls r;
+             pend := if c_fix_moveout C && c_recursive C && is_directory (k_mask e)
+                     then Some (k_cookie e, rpath wdp (k_name e)) else pend r |},
           k, acc ++ [mkraw e (rpath wdp (k_name e))]).
   Proof.
-    intros H1 H2 H4 H5. unfold read_one. rewrite H1, H2, H4. cbn [r_path].
+    intros H0 H1 H2 H4 H5. rewrite read_one_body_eq by exact H0.
+    unfold read_one_body. rewrite H1, H2, H4. cbn [r_path].
     rewrite <- andb_assoc, H5, andb_false_r. reflexivity.
+  Qed.
+
+  (* the loop head on the second half of a rename: nothing pending, or the pending first half of this very rename *)
+  Lemma settle_own r k e wdp :
+    (forall c p, pend r = Some (c, p) -> c = k_cookie e) -> is_moved_to (k_mask e) = true ->
+    alookup N.eqb (k_wd e) (pfw r) = Some wdp ->
+    exists r0, settle_pending C r k e = (r0, k) /\ pfw r0 = pfw r.
+  Proof.
+    intros Hown Hto Hwd. unfold settle_pending. destruct (c_fix_moveout C); [|eexists; split; reflexivity].
+    destruct (pend r) as [[c p]|] eqn:Ep; [|eexists; split; reflexivity].
+    unfold amem. rewrite (Hown c p eq_refl), Hto, N.eqb_refl, Hwd. eexists; split; reflexivity.
   Qed.
 
   (* the second half of a rename: the bookkeeping may change, the event is the same in every branch *)
   Lemma read_one_to t r k acc e wdp :
+    (forall c p, pend r = Some (c, p) -> c = k_cookie e) ->
     alookup N.eqb (k_wd e) (pfw r) = Some wdp ->
     is_moved_from (k_mask e) = false -> is_moved_to (k_mask e) = true ->
     Emitter.is_ignored (k_mask e) = false ->
     is_directory (k_mask e) && is_create (k_mask e) = false ->
     exists r' k', read_one C t (r, k, acc) e = Done (r', k', acc ++ [mkraw e (join wdp (k_name e))]).
   Proof.
-    intros H1 H2 H3 H4 H5. unfold read_one. rewrite H1, H2, H3, H4.
+    intros H0 H1 H2 H3 H4 H5. unfold read_one.
+    destruct (settle_own r k e wdp H0 H3 H1) as [r0 [-> Hpfw]]. rewrite <- Hpfw in H1. clear H0 Hpfw. revert H1.
+    generalize r0. clear r. intros r H1.
+    unfold read_one_body. rewrite H1, H2, H3, H4.
     assert (H5' : forall b, b && is_directory (k_mask e) && is_create (k_mask e) = false).
     { intros b. now rewrite <- andb_assoc, H5, andb_false_r. }
     destruct (alookup N.eqb (k_cookie e) (mvf r)) as [msrc|].
@@ -435,13 +459,15 @@ Section ReadOne.
   (* IN_CREATE|IN_ISDIR for a directory that is still empty when the reader looks: a watch may be added,
      nothing is simulated *)
   Lemma read_one_mkdir t r k acc e wdp :
+    pend r = None ->
     alookup N.eqb (k_wd e) (pfw r) = Some wdp ->
     is_moved_from (k_mask e) = false -> is_moved_to (k_mask e) = false ->
     Emitter.is_ignored (k_mask e) = false ->
     content t (rpath wdp (k_name e)) = Node [] [] ->
     exists r' k', read_one C t (r, k, acc) e = Done (r', k', acc ++ [mkraw e (rpath wdp (k_name e))]).
   Proof.
-    intros H1 H2 H3 H4 H5. unfold read_one. rewrite H1, H2, H3, H4. cbn [r_path].
+    intros H0 H1 H2 H3 H4 H5. rewrite read_one_body_eq by exact H0.
+    unfold read_one_body. rewrite H1, H2, H3, H4. cbn [r_path].
     fold (rpath wdp (k_name e)).
     destruct (c_recursive C && is_directory (k_mask e) && is_create (k_mask e)).
     - destruct (add_watch C r k t (rpath wdp (k_name e))) as [[[r3 k3] wd]|].
@@ -451,17 +477,19 @@ Section ReadOne.
   Qed.
 
   Lemma read_one_ignored t r k acc e path :
+    pend r = None ->
     k_mask e = IN_IGNORED ->
     alookup N.eqb (k_wd e) (pfw r) = Some path ->
     alookup beqb path (wfp r) = Some (k_wd e) ->
     read_one C t (r, k, acc) e =
     Done ({| wfp := aremove beqb path (wfp r); pfw := aremove N.eqb (k_wd e) (pfw r); mvf := mvf r;
-             calls := calls r |}, k, acc ++ [mkraw e (rpath path (k_name e))]).
+             calls := calls r; pend := pend r |}, k, acc ++ [mkraw e (rpath path (k_name e))]).
   Proof.
-    intros Hm H1 H2. unfold read_one. rewrite H1, Hm.
+    intros H0 Hm H1 H2. rewrite read_one_body_eq by exact H0.
+    unfold read_one_body. rewrite H1, Hm.
     change (is_moved_from IN_IGNORED) with false. change (is_moved_to IN_IGNORED) with false.
     change (Emitter.is_ignored IN_IGNORED) with true. cbn iota. rewrite H1. cbn [wfp pfw].
-    rewrite H2, N.eqb_refl. cbn [wfp pfw mvf calls].
+    rewrite H2, N.eqb_refl. cbn [wfp pfw mvf calls pend].
     change (is_create IN_IGNORED) with false. rewrite andb_false_r. unfold mkraw, rpath. rewrite Hm. reflexivity.
   Qed.
 
@@ -845,6 +873,13 @@ Section Complete.
   Variable full : bool.
   Variables (w : world) (k : kst) (r : rstate).
   Hypothesis Hq : k_queue k = [].
+  Hypothesis Hpend : pend r = None.       (* no directory IN_MOVED_FROM is waiting for its second half *)
+
+  Ltac own :=
+    cbn [pend k_cookie kev]; intros c0 p0 Hc0;
+    first [ rewrite Hpend in Hc0; discriminate
+          | match type of Hc0 with context [if ?b then _ else _] =>
+              destruct b; [inversion Hc0; reflexivity | rewrite Hpend in Hc0; discriminate] end ].
 
   Let rec := c_recursive C.
   Let root := c_root C.
@@ -870,7 +905,7 @@ Section Complete.
       rewrite !(knotify_hit _ _ _ _ _ _ _ _ wt Hw Hm) by reflexivity.
       rewrite kpush_nil, kpush_one, kpush_two by (apply kraw_neq_mask; reflexivity).
       cbn [k_queue kset read_batch].
-      rewrite !(read_one_plain C _ _ _ _ _ d) by (first [exact Hp | reflexivity]).
+      rewrite !(read_one_plain C _ _ _ _ _ d) by (first [exact Hpend | exact Hp | reflexivity]).
       finish_path d n.
     - rewrite !knotify_miss by exact Hcov. eexists; split; reflexivity.
   Qed.
@@ -887,7 +922,7 @@ Section Complete.
       rewrite !(knotify_hit _ _ _ _ _ _ _ _ wt Hw Hm) by reflexivity.
       rewrite kpush_nil, kpush_one, kpush_two by (apply kraw_neq_mask; reflexivity).
       cbn [k_queue kset read_batch].
-      rewrite !(read_one_plain C _ _ _ _ _ d) by (first [exact Hp | reflexivity]).
+      rewrite !(read_one_plain C _ _ _ _ _ d) by (first [exact Hpend | exact Hp | reflexivity]).
       finish_path d n.
     - rewrite !knotify_miss by exact Hcov. eexists; split; reflexivity.
   Qed.
@@ -904,7 +939,7 @@ Section Complete.
       rewrite !(knotify_hit _ _ _ _ _ _ _ _ wt Hw Hm) by reflexivity.
       rewrite kpush_nil.
       cbn [k_queue kset read_batch].
-      rewrite !(read_one_plain C _ _ _ _ _ d) by (first [exact Hp | reflexivity]).
+      rewrite !(read_one_plain C _ _ _ _ _ d) by (first [exact Hpend | exact Hp | reflexivity]).
       finish_path d n.
     - rewrite !knotify_miss by exact Hcov. eexists; split; reflexivity.
   Qed.
@@ -923,7 +958,7 @@ Section Complete.
       rewrite !(knotify_hit _ _ _ _ _ _ _ _ wt Hw Hm) by reflexivity.
       rewrite kpush_nil.
       cbn [k_queue kset read_batch].
-      rewrite !(read_one_plain C _ _ _ _ _ d) by (first [exact Hp | reflexivity]).
+      rewrite !(read_one_plain C _ _ _ _ _ d) by (first [exact Hpend | exact Hp | reflexivity]).
       finish_path d n.
     - rewrite !knotify_miss by exact Hcov. eexists; split; reflexivity.
   Qed.
@@ -967,15 +1002,15 @@ Section Complete.
         rewrite !(knotify_hit _ _ _ _ _ _ _ _ wp Hw' Hm') by reflexivity.
         rewrite kpush_one by (apply kraw_neq_name; cbn; destruct n; [discriminate | reflexivity]).
         cbn [k_queue kset read_batch].
-        rewrite (read_one_plain C _ _ _ _ _ d) by (first [exact Hp | reflexivity]).
-        rewrite (read_one_plain C _ _ _ _ _ (d ++ sep :: n)) by (first [exact Hp' | reflexivity]).
+        rewrite (read_one_plain C _ _ _ _ _ d) by (first [exact Hpend | exact Hp | reflexivity]).
+        rewrite (read_one_plain C _ _ _ _ _ (d ++ sep :: n)) by (first [exact Hpend | exact Hp' | reflexivity]).
         cbn [k_name kev app rpath]. rewrite ?rpath_child by assumption. generalize (d ++ sep :: n). intros p.
         eexists. split; [reflexivity|].
         match goal with |- collapse ?l = _ => let l' := eval cbv in l in change l with l' end.
         apply collapse_dup.
       + rewrite !knotify_miss by exact Hcovp.
         cbn [k_queue kset read_batch].
-        rewrite (read_one_plain C _ _ _ _ _ d) by (first [exact Hp | reflexivity]).
+        rewrite (read_one_plain C _ _ _ _ _ d) by (first [exact Hpend | exact Hp | reflexivity]).
         finish_path d n.
     - rewrite !knotify_miss by exact Hcov.
       destruct (watched_dir rec root (d ++ sep :: n)); [specialize (Hwc eq_refl); discriminate|].
@@ -1012,10 +1047,10 @@ Section Complete.
         rewrite (knotify_hit _ _ _ _ _ _ _ _ wq Hw' Hm') by reflexivity.
         rewrite kpush_one by (apply kraw_neq_mask; reflexivity).
         cbn [k_queue kset read_batch].
-        rewrite (read_one_from C _ _ _ _ _ dp) by (first [exact Hp | reflexivity]).
+        rewrite (read_one_from C _ _ _ _ _ dp) by (first [exact Hpend | exact Hp | reflexivity]).
         match goal with |- context [read_one C ?t (?r1, ?k1, ?acc) ?e] =>
           destruct (read_one_to C t r1 k1 acc e dq) as [r' [k' Hrd]];
-            [exact Hp' | reflexivity | reflexivity | reflexivity | reflexivity | rewrite Hrd] end.
+            [own | exact Hp' | reflexivity | reflexivity | reflexivity | reflexivity | rewrite Hrd] end.
         cbn [k_name kev app rpath]. rewrite ?rpath_child by assumption.
         rewrite (join_name dq nq) by assumption.
         generalize (dp ++ sep :: np) (dq ++ sep :: nq). intros p q.
@@ -1024,7 +1059,7 @@ Section Complete.
         cbn. rewrite andb_false_r. reflexivity.
       + rewrite knotify_miss by exact Hcq.
         cbn [k_queue kset read_batch].
-        rewrite (read_one_from C _ _ _ _ _ dp) by (first [exact Hp | reflexivity]).
+        rewrite (read_one_from C _ _ _ _ _ dp) by (first [exact Hpend | exact Hp | reflexivity]).
         cbn [k_name kev app rpath]. rewrite ?rpath_child by assumption.
         generalize (dp ++ sep :: np) (dq ++ sep :: nq). intros p q.
         eexists. split; [reflexivity|]. destruct full; reflexivity.
@@ -1035,7 +1070,7 @@ Section Complete.
         cbn [k_queue kset read_batch].
         match goal with |- context [read_one C ?t (?r1, ?k1, ?acc) ?e] =>
           destruct (read_one_to C t r1 k1 acc e dq) as [r' [k' Hrd]];
-            [exact Hp' | reflexivity | reflexivity | reflexivity | reflexivity | rewrite Hrd] end.
+            [own | exact Hp' | reflexivity | reflexivity | reflexivity | reflexivity | rewrite Hrd] end.
         cbn [k_name kev app rpath]. rewrite (join_name dq nq) by assumption.
         generalize (dp ++ sep :: np) (dq ++ sep :: nq). intros p q.
         eexists. split; [reflexivity|]. destruct full; cbn; rewrite ?andb_false_r; reflexivity.
@@ -1068,7 +1103,7 @@ Section Complete.
       cbn [k_queue kset read_batch].
       match goal with |- context [read_one C ?t (?r1, ?k1, ?acc) ?e] =>
         destruct (read_one_mkdir C t r1 k1 acc e d) as [r' [k' Hrd]];
-          [exact Hp | reflexivity | reflexivity | reflexivity | | rewrite Hrd] end.
+          [exact Hpend | exact Hp | reflexivity | reflexivity | reflexivity | | rewrite Hrd] end.
       { cbn [k_name kev]. rewrite rpath_child by assumption. rewrite Hfs. now apply content_fresh_dir. }
       finish_path d n.
     - rewrite !knotify_miss by exact Hcov. eexists; split; reflexivity.
@@ -1106,10 +1141,10 @@ Section Complete.
         rewrite (knotify_hit _ _ _ _ _ _ _ _ wt (watch_kdrop _ _ _ _ Hw Hne) Hm) by reflexivity.
         rewrite kpush_two by (apply kraw_neq_mask; reflexivity).
         cbn [k_queue kset read_batch].
-        rewrite (read_one_plain C _ _ _ _ _ (d ++ sep :: n)) by (first [exact Hp' | reflexivity]).
-        rewrite (read_one_ignored C _ _ _ _ _ (d ++ sep :: n)) by (first [exact Hp' | exact Hf' | reflexivity]).
+        rewrite (read_one_plain C _ _ _ _ _ (d ++ sep :: n)) by (first [exact Hpend | exact Hp' | reflexivity]).
+        rewrite (read_one_ignored C _ _ _ _ _ (d ++ sep :: n)) by (first [exact Hpend | exact Hp' | exact Hf' | reflexivity]).
         rewrite (read_one_plain C _ _ _ _ _ d)
-          by (first [cbn [pfw k_wd kev kignored]; rewrite alookup_aremove_neq by exact Hne; exact Hp | reflexivity]).
+          by (first [exact Hpend | cbn [pfw k_wd kev kignored]; rewrite alookup_aremove_neq by exact Hne; exact Hp | reflexivity]).
         cbn [k_name kev kignored app rpath]. rewrite ?rpath_child by assumption.
         revert Hnr. generalize (d ++ sep :: n). intros p Hnr.
         eexists. split; [reflexivity|].
@@ -1119,8 +1154,8 @@ Section Complete.
         reflexivity.
       + rewrite knotify_miss by (apply watch_kdrop_none; exact Hcov).
         cbn [k_queue kset read_batch].
-        rewrite (read_one_plain C _ _ _ _ _ (d ++ sep :: n)) by (first [exact Hp' | reflexivity]).
-        rewrite (read_one_ignored C _ _ _ _ _ (d ++ sep :: n)) by (first [exact Hp' | exact Hf' | reflexivity]).
+        rewrite (read_one_plain C _ _ _ _ _ (d ++ sep :: n)) by (first [exact Hpend | exact Hp' | reflexivity]).
+        rewrite (read_one_ignored C _ _ _ _ _ (d ++ sep :: n)) by (first [exact Hpend | exact Hp' | exact Hf' | reflexivity]).
         cbn [k_name kev kignored app rpath].
         revert Hnr. generalize (d ++ sep :: n). intros p Hnr.
         eexists. split; [reflexivity|].
@@ -1133,7 +1168,7 @@ Section Complete.
       + destruct Hcov as [wt [Hw [Hm [Hp Hf]]]].
         rewrite (knotify_hit _ _ _ _ _ _ _ _ wt Hw Hm) by reflexivity. rewrite kpush_nil.
         cbn [k_queue kset read_batch].
-        rewrite (read_one_plain C _ _ _ _ _ d) by (first [exact Hp | reflexivity]).
+        rewrite (read_one_plain C _ _ _ _ _ d) by (first [exact Hpend | exact Hp | reflexivity]).
         finish_path d n.
       + rewrite knotify_miss by exact Hcov. eexists; split; reflexivity.
   Qed.
@@ -1180,10 +1215,10 @@ Section Complete.
         rewrite (knotify_hit _ _ _ _ _ _ _ _ wq Hw' Hm') by reflexivity.
         rewrite kpush_one by (apply kraw_neq_mask; reflexivity).
         cbn [k_queue kset read_batch].
-        rewrite (read_one_from C _ _ _ _ _ dp) by (first [exact Hp | reflexivity]).
+        rewrite (read_one_from C _ _ _ _ _ dp) by (first [exact Hpend | exact Hp | reflexivity]).
         match goal with |- context [read_one C ?t (?r1, ?k1, ?acc) ?e] =>
           destruct (read_one_to C t r1 k1 acc e dq) as [r' [k' Hrd]];
-            [exact Hp' | reflexivity | reflexivity | reflexivity | reflexivity | rewrite Hrd] end.
+            [own | exact Hp' | reflexivity | reflexivity | reflexivity | reflexivity | rewrite Hrd] end.
         cbn [k_name kev app rpath]. rewrite ?rpath_child by assumption.
         rewrite (join_name dq nq) by assumption.
         rewrite <- Hct.
@@ -1195,7 +1230,7 @@ Section Complete.
         rewrite Hsm. destruct rec; cbn [andb app]; rewrite ?app_nil_r; reflexivity.
       + rewrite knotify_miss by exact Hcq.
         cbn [k_queue kset read_batch].
-        rewrite (read_one_from C _ _ _ _ _ dp) by (first [exact Hp | reflexivity]).
+        rewrite (read_one_from C _ _ _ _ _ dp) by (first [exact Hpend | exact Hp | reflexivity]).
         cbn [k_name kev app rpath]. rewrite ?rpath_child by assumption.
         set (p := dp ++ sep :: np) in *. set (q := dq ++ sep :: nq) in *.
         eexists. split; [reflexivity|]. destruct full; reflexivity.
@@ -1206,7 +1241,7 @@ Section Complete.
         cbn [k_queue kset read_batch].
         match goal with |- context [read_one C ?t (?r1, ?k1, ?acc) ?e] =>
           destruct (read_one_to C t r1 k1 acc e dq) as [r' [k' Hrd]];
-            [exact Hp' | reflexivity | reflexivity | reflexivity | reflexivity | rewrite Hrd] end.
+            [own | exact Hp' | reflexivity | reflexivity | reflexivity | reflexivity | rewrite Hrd] end.
         cbn [k_name kev app rpath]. rewrite (join_name dq nq) by assumption.
         rewrite <- Hct.
         set (p := dp ++ sep :: np) in *. set (q := dq ++ sep :: nq) in *.
@@ -1266,7 +1301,9 @@ Definition ph_Rdg : bytes := [47; 82; 47; 100; 47; 103]%N.   (* /R/d/g - the sta
 
 Definition ph_cfg : pcfg :=
   {| pc_reader := {| c_recursive := true; c_mask := WATCHDOG_ALL; c_root := ph_R; c_fix_ignored := true;
-                     c_fix_movein := true; c_fix_simulate := true; c_faults := [] |};
+                     c_fix_movein := true; c_fix_simulate := true;
+                     c_fix_moveout := false;     (* the code before the repair of F10 *)
+                     c_faults := [] |};
      pc_full := false; pc_filter := None; pc_delay := 5 |}.
 
 Definition ph_world : world :=
@@ -1291,15 +1328,16 @@ Qed.
 Lemma sound_refuted_phantom :
   exists P w s0 h, pc_filter P = None /\ c_mask (pc_reader P) = WATCHDOG_ALL /\
     c_fix_ignored (pc_reader P) = true /\ c_fix_movein (pc_reader P) = true /\ c_fix_simulate (pc_reader P) = true /\
+    c_fix_moveout (pc_reader P) = false /\
     pinit P w = Some s0 /\ sound_along P s0 [] h = false.
 Proof.
   exists ph_cfg, ph_world. eexists. exists ph_history.
-  do 5 (split; [reflexivity|]). split; [vm_compute; reflexivity|]. vm_compute. reflexivity.
+  do 6 (split; [reflexivity|]). split; [vm_compute; reflexivity|]. vm_compute. reflexivity.
 Qed.
 
 Lemma sound_full_false : ~ sound_full.
 Proof.
-  intros H. destruct sound_refuted_phantom as [P [w [s0 [h [H1 [H2 [_ [_ [_ [H3 H4]]]]]]]]]].
+  intros H. destruct sound_refuted_phantom as [P [w [s0 [h [H1 [H2 [_ [_ [_ [_ [H3 H4]]]]]]]]]]].
   rewrite (H P w s0 h H1 H2 H3) in H4. discriminate.
 Qed.
 
@@ -1325,7 +1363,7 @@ Definition ex_world : world := {| w_fs := ex_fs; w_next_ino := 20 |}.
 
 Definition ex_C (recursive : bool) : cfg :=
   {| c_recursive := recursive; c_mask := WATCHDOG_ALL; c_root := ex_R; c_fix_ignored := true;
-     c_fix_movein := true; c_fix_simulate := true; c_faults := [] |}.
+     c_fix_movein := true; c_fix_simulate := true; c_fix_moveout := true; c_faults := [] |}.
 
 (* the state right after Inotify.__init__ *)
 Definition ex_state (recursive : bool) : rstate * kst :=
@@ -1335,7 +1373,7 @@ Definition ex_k (recursive : bool) : kst := snd (ex_state recursive).
 
 (* hypotheses of a contract lemma hold for operation [o] on parent directories [ds], and the delivered list is [l] *)
 Definition ex_ok (recursive full : bool) (ds : list bytes) (o : op) (l : list nevent) : Prop :=
-  k_queue (ex_k recursive) = [] /\
+  k_queue (ex_k recursive) = [] /\ pend (ex_r recursive) = None /\
   Forall (cover (ex_C recursive) (ex_r recursive) (ex_k recursive) ex_fs) ds /\
   apply_op ex_world o <> None /\
   deliver_one (ex_C recursive) full ex_world (ex_k recursive) (ex_r recursive) o = Some l /\
